@@ -39,6 +39,8 @@ fn main() {
         "C06" => c06::run(&args),
         "C08" => c08::run(&args),
         "C09" => c09::run(&args),
+        "C05-corpus" => c05::dump_corpus(args.rest.get(1).map(|s| s.as_str()).unwrap_or("/verif/harness/fuzz/corpus")),
+        "C05-raw" => c05::raw_one(args.rest.get(1).map(|s| s.as_str()).unwrap_or(""), args.rest.get(2).map(|s| s.as_str()).unwrap_or("")),
         "C08-timing" => {
             c08::timing();
             0
